@@ -166,7 +166,7 @@ Proof.
   replace (map (fun x => cow_bytes text2 (sh_cow k x)) (c_after_text c)) with (map (cow_bytes text) (c_after_text c))
     by (apply map_ext; intros; symmetry; apply cow_bytes_sh).
   eapply rsimE_bind.
-  - apply upd_node_sh_atE. intros x Hx. Show. rewrite (rev_last_nth _ _ _ Er) in Hx. injection Hx as <-.
+  - apply upd_node_sh_atE. intros x Hx. rewrite (rev_last_nth ws text _ _ _ Er) in Hx. injection Hx as <-.
     unfold sh_node, nd_set_kind. cbn. rewrite Ek. reflexivity.
   - intros nodes' _. reflexivity.
 Qed.
@@ -205,13 +205,14 @@ Proof.
   unfold push_ref. cbn [sh_doc d_ns_tree]. destruct (nth_N _ _); reflexivity.
 Qed.
 
-Lemma get_ns_idx_by_prefix_shE nss pp pp' prefix prefix' d :
+Lemma get_ns_idx_by_prefix_shE nss pp prefix prefix' d :
   slice_bytes text2 prefix' = slice_bytes text prefix ->
-  rsimE idf (get_ns_idx_by_prefix text nss pp prefix d) (get_ns_idx_by_prefix text2 nss pp' prefix' (shd d)).
+  rsimE idf (get_ns_idx_by_prefix text nss pp prefix d) (get_ns_idx_by_prefix text2 nss (pp + k) prefix' (shd d)).
 Proof.
   intros Hb. unfold get_ns_idx_by_prefix. cbv zeta. rewrite Hb.
   destruct (bytes_eqb _ _); [reflexivity|].
-  eapply rsimE_bind; [unfold ns_range_slice; cbn [sh_doc d_ns_tree]; apply id_simE; np|]. intros idxs _. unfold idf.
+  change (ns_range_slice (shd d) nss) with (ns_range_slice d nss).
+  eapply rsimE_bind; [apply id_simE; np|]. intros idxs _. unfold idf.
   rewrite find_prefix_idx_sh.
   eapply rsimE_bind; [apply id_simE; np|]. intros found _. unfold idf.
   destruct found; [reflexivity|]. destruct (slice_bytes text prefix); [reflexivity|].
